@@ -112,6 +112,12 @@ func runC15(env *Env, rc *RunCtx) {
 		restVariant = t.Choose(4)
 		rc.Count("probe_rest_entry_point", 1)
 	}
+	// one case in three runs on a connection pool of one
+	if t.Bool(1, 3) {
+		env.SetPool(1)
+		defer env.SetPool(0)
+		rc.Count("probe_connection_pool_of_one", 1)
+	}
 	q, class, _, err := env.PrepCase(c, Limits{Depth: depth, Width: width, BatchMax: 10, BatchPar: batchPar})
 	if err != nil {
 		env.T.Fatalf("harness: %v", err)
